@@ -204,10 +204,9 @@ Proof.
   - cbn. destruct (to_place st); reflexivity.
   - cbn [lexp_from san_ph_from]. rewrite map_app, IH.
     destruct st as [ctl| |k ctl|ctl|ctl].
-    + destruct ctl; cbn [to_place andb enters_place snext map app];
-      try (rewrite snext_no_place_aux; reflexivity).
-      all: try (rewrite (snext_no_place (SRun _) c rest) by congruence; reflexivity).
-      cbn [snext]. destruct (to_place (run_next CRaw c rest)); reflexivity.
+    + destruct ctl; cbn [to_place andb enters_place map app].
+      1: { cbn [snext]. destruct (to_place (run_next CRaw c rest)); reflexivity. }
+      all: rewrite snext_no_place by congruence; reflexivity.
     + cbn [to_place andb enters_place snext]. destruct (is_digit c); cbn [negb andb map app to_place].
       * reflexivity.
       * destruct (to_place (run_next CRaw c rest)); reflexivity.
@@ -227,7 +226,8 @@ Proof.
   - cbn [lexp_from lex_from].
     pose proof (sdata_num_acc st acc num c rest) as Hn.
     destruct (sdata st acc num c rest) as [out [acc' num']] eqn:Hd. cbn [snd] in Hn.
-    rewrite filter_app_parg, map_app. rewrite <- Hn. rewrite <- (IH _ acc' num').
+    rewrite filter_app_parg, map_app. rewrite <- Hn.
+    rewrite <- (IH (snext st c rest) acc' num' (if enters_place st c rest then o else start) (S o)).
     f_equal.
     destruct st as [ctl| |k ctl|ctl|ctl]; cbn [sdata to_place andb] in *.
     + unfold run_data in Hd. destruct (run_next ctl c rest); inversion Hd; reflexivity.
